@@ -1,30 +1,286 @@
-import PyPhysim.Proofs.C17
+import PyPhysim.Proofs.C17Files
 
 /-!
 # C17 — saving and loading parameters and results loses nothing
 
-Property theorems only.  `enc`/`dec` model `json.dumps(cls=NumpyOrSetEncoder)` /
-`json.loads(object_hook=json_numpy_or_set_obj_hook)` of the repaired code; the
-model is tied to the code by the exact token-level correspondence of
-`harness/props/c17.py`.
+Property theorems only.  `enc` / `dec` model `json.dumps(cls=NumpyOrSetEncoder)`
+and `json.loads(object_hook=json_numpy_or_set_obj_hook)`; `paramsToDict`,
+`resultToDict`, `simToDict` and their `…FromDict` model the `_to_dict` /
+`_from_dict` methods; `saveToFile` / `loadFromFile` the extension dispatch over an
+explicit file store; `expand` / `getFilename` the file-name template.  All are
+hand models of the code *after* the C17 `fix:` commits, tied to the code by the
+exact token-level correspondence of `harness/props/c17.py` (JSON tree of
+`to_json()` and full state of the loaded object, for seeded objects built through
+the real constructors and `update()` histories).
+
+`norm` replaces a numpy scalar by the Python scalar of the same value and changes
+nothing else (`norm_keeps_values`), which is what JSON can carry and what the
+classes' `==` cannot distinguish.
+
+Outside the theorems (see CLAIM.note): binary64 arithmetic of `update()` (the
+round-trip theorems hold for *every* field state), `repr(float)` (a parameter
+`fr` of the file-name model), `os.path.splitext`, pickle (modelled as storing the
+object itself), `np.longdouble`.
 -/
 namespace PyPhysim.C17
 open PyPhysim.Proto
 
-/-- JSON layer, every supported value (`wf`: sets hold distinct hashable
-    scalars, arrays have a real dtype and a shape consistent with `tolist()`,
-    dicts do not use the keys `_is_set` / `_is_numpy_array`): decoding the
-    encoding gives the value back with numpy scalars replaced by the Python
-    scalar of the same value — arrays keep dtype, shape (also zero-sized) and
-    data, sets stay sets, nesting and order are kept. -/
+/-! ## values through the JSON layer -/
+
+/-- Clause "any … object built from supported values … is equal to the object
+    obtained by writing it to JSON … and reading it back", value layer, every
+    supported value (`wf`: a set holds pairwise different hashable scalars, an
+    array has a real numeric dtype and a shape consistent with `tolist()` — also
+    zero-sized and 0-d —, a dict does not use the keys `_is_set` /
+    `_is_numpy_array`, numpy floats are at most 64 bits wide): decoding the
+    encoding succeeds and returns the value with numpy scalars replaced by Python
+    scalars; arrays keep dtype, shape and data, sets stay sets, lists keep
+    nesting and order. -/
 theorem dec_enc (v : PyVal) (h : wf v = true) : dec (enc v) = .ok (norm v) := dec_enc_aux v h
 
-/-- "saving and loading the loaded object again changes nothing" -/
+/-- … and `norm` loses nothing: same tree, same strings, same numeric value at
+    every scalar (only the scalar's numpy type is dropped), same dtype / shape /
+    data for arrays.  First-principles reading of "equal". -/
+theorem norm_keeps_values (v : PyVal) : sameValue v (norm v) = true := sameValue_norm_aux v
+
+/-- Clause "saving and loading the loaded object again changes nothing". -/
 theorem second_roundtrip_identity (v : PyVal) (h : wf v = true) :
     dec (enc (norm v)) = .ok (norm v) := by
   rw [dec_enc (norm v) (wf_norm_aux v h), norm_norm]
 
-/-- `to_json()` of the loaded object is the JSON tree of the original -/
+/-- `to_json()` of the loaded object is the JSON tree of the original
+    (observation point "to_json() text"). -/
 theorem enc_norm (v : PyVal) : enc (norm v) = enc v := enc_norm_aux v
+
+/-- non-vacuity of `wf`: float32 scalar, a set with an int16 and a string, a
+    zero-sized 2-d array, an empty and a nested list, all in one value -/
+example : wf (.list [.npfloat 32 (.fin 5 2), .set [.npint true 16 3, .str "a"],
+    .ndarray "float64" [0, 3] (.list []), .list [], .list [.list [.int 1]],
+    .ndarray "int8" [2, 2] (.list [.list [.int 1, .int 2], .list [.int 3, .int 4]])]) = true := by
+  decide
+
+/-- NEGATIVE WITNESS (known finding `C17:json-hook:reserved-parameter-name`): the
+    hypothesis on dict keys cannot be dropped.  A parameter dictionary with a
+    parameter literally named `_is_set` does not decode (`ValueError`), and with
+    the value `True` plus a parameter `data` it silently decodes to a *set*. -/
+theorem reserved_key_breaks_roundtrip :
+    dec (enc (.dict [("_is_set", .int 3), ("x", .int 1)])) = raise .ValueError ∧
+    dec (enc (.dict [("_is_set", .bool true), ("data", .list [.int 1])])) = .ok (.set [.int 1]) := by
+  constructor <;> rfl
+
+/-! ## SimulationParameters -/
+
+/-- Clause "simulation-parameters object … including unpacked-parameter marks,
+    unpack indexes" and "unpacked children": for every chain `object →
+    _original_sim_params → …` of any depth (given `fuel ≥ depth` for the
+    recursion of `_from_dict`), with supported parameter values and any set of
+    unpacked names, `from_json(to_json(p))` is the same chain — same parameter
+    names in the same order, same unpacked marks, same unpack index, same
+    original parameters at every level — with values normalised. -/
+theorem params_roundtrip (c : Chain) (fuel : Nat) (hne : c ≠ []) (hf : c.length ≤ fuel)
+    (h : wfChain c = true) : paramsFromJson fuel (paramsToJson c) = .ok (normChain c) :=
+  params_json_roundtrip c fuel hne hf h
+
+/-- saving and loading the loaded parameters again changes nothing, and their
+    JSON text is the original text -/
+theorem params_second_roundtrip (c : Chain) (fuel : Nat) (hne : c ≠ []) (hf : c.length ≤ fuel)
+    (h : wfChain c = true) :
+    paramsFromJson fuel (paramsToJson (normChain c)) = .ok (normChain c) ∧
+    paramsToJson (normChain c) = paramsToJson c := by
+  constructor
+  · have := params_json_roundtrip (normChain c) fuel
+      (by cases c with
+          | nil => exact absurd rfl hne
+          | cons n r => simp [normChain])
+      (by rw [normChain_length]; exact hf) (wfChain_norm c h)
+    rwa [normChain_idem] at this
+  · unfold paramsToJson
+    rw [← norm_paramsToDict, enc_norm_aux]
+
+/-- the dict form alone (`_from_dict(_to_dict(p))`, no JSON) is the identity -/
+theorem params_dict_roundtrip (c : Chain) (fuel : Nat) (hne : c ≠ []) (hf : c.length ≤ fuel) :
+    paramsFromDict fuel (paramsToDict c) = .ok c := paramsFromDict_toDict c fuel hne hf
+
+/-- non-vacuity: an unpacked child (index 1) of a parameter set with an unpacked
+    float32 array -/
+example : wfChain
+    [{ parameters := [("snr", .npfloat 32 (.fin 3 2)), ("M", .int 4)], unpacked := [], unpackIndex := 1 },
+     { parameters := [("snr", .ndarray "float32" [2] (.list [.float (.fin 1 2), .float (.fin 3 2)])),
+                      ("M", .int 4)], unpacked := ["snr"], unpackIndex := -1 }] = true := by
+  decide
+
+/-! ## Result -/
+
+/-- Clause "all result types with arbitrary update histories … repetition counts
+    and per-result statistics", SUMTYPE / RATIOTYPE / MISCTYPE: *whatever* state
+    the updates left (any value, total, result sum, squared sum, number of
+    updates, accumulated value and total lists made of supported values — in
+    particular the never-updated state with total 0), `from_json(to_json(r))` is
+    that state, normalised. -/
+theorem result_roundtrip (r : Result) (ht : r.typeCode ≠ 3) (h : wfResult r = true) :
+    resultFromJson (resultToJson r) = .ok r.norm := result_plain_roundtrip r ht h
+
+/-- CHOICETYPE: every state reached from a fresh result by any list of
+    successful updates satisfies `total = num_updates = Σ counts`, keeps the
+    number of choices, and its accumulated values are supported values. -/
+theorem choice_invariant (name : String) (acc : Bool) (n : Nat) (ops : List PyVal) (c : Choice)
+    (h : runChoice (choiceInit name acc n) ops = .ok c) :
+    c.counts.length = n ∧ c.total = natSum c.counts ∧ c.numUpdates = natSum c.counts
+      ∧ wfList c.valueList = true :=
+  (runChoice_inv n ops _ c (choiceInit_inv name acc n) h).1
+
+/-- CHOICETYPE, arbitrary update history: the result that `_from_dict` rebuilds
+    by replaying `update(i)` `counts[i]` times has the same counts, total, number
+    of updates, statistics and — in the recorded order — the same accumulated
+    values. -/
+theorem choice_roundtrip (name : String) (acc : Bool) (n : Nat) (ops : List PyVal) (c : Choice)
+    (h : runChoice (choiceInit name acc n) ops = .ok c) :
+    resultFromJson (resultToJson c.toResult) = .ok c.toResult.norm := by
+  obtain ⟨_, ht, hn, hw⟩ := choice_invariant name acc n ops c h
+  exact result_choice_roundtrip c ht hn hw
+
+/-- saving and loading a loaded result again changes nothing (every result the
+    two theorems above cover: `goodResult`), and its JSON text is the original -/
+theorem result_second_roundtrip (r : Result) (h : goodResult r) :
+    resultFromJson (resultToJson r.norm) = .ok r.norm ∧ resultToJson r.norm = resultToJson r := by
+  constructor
+  · have := (result_good_roundtrip r.norm (goodResult_norm r h))
+    unfold resultFromJson resultToJson
+    rw [dec_enc_aux _ this.1, bind_ok, this.2, Result.norm_norm]
+  · unfold resultToJson
+    rw [← norm_resultToDict, enc_norm_aux]
+
+/-- non-vacuity: the history 3, 1, int8(0), -1 on four choices is accepted
+    (the negative index counts for the last choice) -/
+example : (runChoice (choiceInit "c" true 4) [.int 3, .int 1, .npint true 8 0, .int (-1)]).toOption.map
+    (fun c => (c.counts, c.total)) = some ([1, 1, 0, 2], 4) := by decide
+
+/-! ## SimulationResults -/
+
+/-- Clause "simulation-results object": parameters (any chain), `runned_reps`,
+    `current_rep`, `original_filename` and every result of every name (several
+    per name) come back from `from_json(to_json(s))`.  `goodSim`: the parameters
+    are supported, every result is in a state covered by `result_roundtrip` /
+    `choice_roundtrip`, and no result is *named* `_is_set`/`_is_numpy_array`
+    (result names are JSON object keys). -/
+theorem simresults_roundtrip (s : SimResults) (fuel : Nat) (h : goodSim s)
+    (hf : s.params.length ≤ fuel) : simFromJson fuel (simToJson s) = .ok s.norm :=
+  sim_json_roundtrip s fuel h hf
+
+/-- saving and loading the loaded `SimulationResults` again changes nothing, and
+    its JSON text is the original text -/
+theorem simresults_second_roundtrip (s : SimResults) (fuel : Nat) (h : goodSim s)
+    (hf : s.params.length ≤ fuel) :
+    simFromJson fuel (simToJson s.norm) = .ok s.norm ∧ simToJson s.norm = simToJson s := by
+  constructor
+  · have := sim_json_roundtrip s.norm fuel (goodSim_norm s h)
+      (by simp only [SimResults.norm, normChain_length]; exact hf)
+    rwa [SimResults.norm_norm] at this
+  · exact simToJson_norm s
+
+/-- Clause "writing it to … a file whose name embeds parameter values", `.json`
+    target: `save_to_file` stores the object with `original_filename` set to the
+    template under the expanded name and `load_from_file` of the returned name
+    gives that object back. -/
+theorem save_load_json (fr : Nat → PyFloat → String) (st : Store) (s : SimResults) (txt : String)
+    (tpl : List Seg) (ext stem : String) (n : Node) (rest : Chain) (fuel : Nat)
+    (hp : s.params = n :: rest) (hn : getFilename fr n.parameters txt tpl = .ok stem)
+    (hfmt : fmtOf (normExt ext) = some .json) (h : goodSim s) (hf : s.params.length ≤ fuel) :
+    ∃ st' f, saveToFile fr st s txt tpl ext =
+        .ok (st', { s with originalFilename := .str (txt ++ normExt ext) }, f)
+      ∧ f = { stem := stem, ext := normExt ext }
+      ∧ loadFromFile fuel st' f = .ok ({ s with originalFilename := .str (txt ++ normExt ext) } : SimResults).norm := by
+  refine ⟨_, _, saveToFile_eq fr st s txt tpl ext stem n rest .json hp hn hfmt, rfl, ?_⟩
+  rw [loadFromFile_json fuel st stem ext _ hfmt]
+  exact sim_json_roundtrip _ fuel (goodSim_set_filename s _ h) hf
+
+/-- `.pickle` target and the no-extension default (which appends `.pickle`):
+    the loaded object is the saved object itself (pickle is trusted). -/
+theorem save_load_pickle (fr : Nat → PyFloat → String) (st : Store) (s : SimResults) (txt : String)
+    (tpl : List Seg) (ext stem : String) (n : Node) (rest : Chain) (fuel : Nat)
+    (hp : s.params = n :: rest) (hn : getFilename fr n.parameters txt tpl = .ok stem)
+    (hfmt : fmtOf (normExt ext) = some .pickle) :
+    ∃ st' f, saveToFile fr st s txt tpl ext =
+        .ok (st', { s with originalFilename := .str (txt ++ normExt ext) }, f)
+      ∧ f = { stem := stem, ext := normExt ext }
+      ∧ loadFromFile fuel st' f = .ok { s with originalFilename := .str (txt ++ normExt ext) } := by
+  refine ⟨_, _, saveToFile_eq fr st s txt tpl ext stem n rest .pickle hp hn hfmt, rfl, ?_⟩
+  exact loadFromFile_pickle fuel st stem ext _ hfmt
+
+/-- the extension dispatch: `''` and `.pickle` select pickle, `.json` selects
+    JSON, anything else is rejected with `KeyError` before a file is written -/
+theorem extension_dispatch :
+    fmtOf (normExt "") = some .pickle ∧ fmtOf (normExt ".pickle") = some .pickle ∧
+    fmtOf (normExt ".json") = some .json ∧ fmtOf (normExt ".txt") = .none := by decide
+
+theorem save_unknown_extension_rejected (fr : Nat → PyFloat → String) (st : Store) (s : SimResults)
+    (txt : String) (tpl : List Seg) (ext stem : String) (n : Node) (rest : Chain)
+    (hp : s.params = n :: rest) (hn : getFilename fr n.parameters txt tpl = .ok stem)
+    (hfmt : fmtOf (normExt ext) = .none) : saveToFile fr st s txt tpl ext = raise .KeyError :=
+  saveToFile_unknown_ext fr st s txt tpl ext stem n rest hp hn hfmt
+
+/-! ## file names -/
+
+/-- Clause "distinct scalar values give distinct names": two parameter sets that
+    differ in the parameter `n` only (all other fields render alike), whose
+    renderings of `n` differ, give different names for every template that
+    mentions `{n}` at least once — however often, wherever, and whatever the
+    other fields and literal pieces are. -/
+theorem filename_injective_field (fr : Nat → PyFloat → String) (n : String)
+    (e1 e2 : List (String × PyVal)) (v1 v2 : PyVal) (t1 t2 : String) (segs : List Seg) (a b : String)
+    (hv1 : lookup n e1 = some v1) (hv2 : lookup n e2 = some v2)
+    (ht1 : render fr v1 = some t1) (ht2 : render fr v2 = some t2)
+    (hag : agreeExcept fr n e1 e2) (hocc : 0 < countField n segs)
+    (ha : expand fr e1 segs = .ok a) (hb : expand fr e2 segs = .ok b) (hne : t1 ≠ t2) : a ≠ b := by
+  intro hab
+  subst hab
+  have hl := expand_length fr n e1 e2 v1 v2 t1 t2 hv1 hv2 ht1 ht2 hag segs a a ha hb
+  have hlen : t1.length = t2.length := by
+    have : countField n segs * t2.length = countField n segs * t1.length := by omega
+    exact (Nat.eq_of_mul_eq_mul_left hocc this).symm
+  exact hne (expand_eq_pieces fr n e1 e2 v1 v2 t1 t2 hv1 hv2 ht1 ht2 hag hlen segs a a ha hb rfl hocc)
+
+/-- … and renderings of integer (Python or numpy, any width), string and bool
+    values are injective, so for those kinds "different value" implies
+    "different rendering".  For floats the rendering is `repr` (CPython, not
+    modelled): injective iff `fr 64` is. -/
+theorem render_injective (fr : Nat → PyFloat → String) :
+    (∀ i j : Int, render fr (.int i) = render fr (.int j) → i = j) ∧
+    (∀ (s1 s2 : Bool) (w1 w2 : Nat) (i j : Int), render fr (.npint s1 w1 i) = render fr (.npint s2 w2 j) → i = j) ∧
+    (∀ s t : String, render fr (.str s) = render fr (.str t) → s = t) ∧
+    (∀ b c : Bool, render fr (.bool b) = render fr (.bool c) → b = c) ∧
+    ((∀ f g, fr 64 f = fr 64 g → f = g) →
+      ∀ f g : PyFloat, render fr (.float f) = render fr (.float g) → f = g) := by
+  refine ⟨?_, ?_, ?_, ?_, ?_⟩
+  · intro i j h; simp only [render, Option.some.injEq] at h; exact Int.repr_inj.1 h
+  · intro _ _ _ _ i j h; simp only [render, Option.some.injEq] at h; exact Int.repr_inj.1 h
+  · intro s t h; simpa [render] using h
+  · intro b c h
+    cases b <;> cases c <;> first | rfl | (simp only [render] at h; revert h; decide)
+  · intro hfr f g h; simp only [render, Option.some.injEq] at h; exact hfr f g h
+
+/-- Clause "the file name … is a deterministic function of the parameter
+    values": the name depends on the values only, not on their numpy types — the
+    loaded (normalised) parameters give the same name as the original ones —
+    provided numpy formats its narrow floats like the Python float of the same
+    value (`fr w = fr 64`; true for the pinned numpy, checked by the harness on
+    every generated float). -/
+theorem filename_same_after_reload (fr : Nat → PyFloat → String) (hfr : ∀ w f, fr w f = fr 64 f)
+    (env : List (String × PyVal)) (txt : String) (segs : List Seg) :
+    getFilename fr (normKVs env) txt segs = getFilename fr env txt segs := by
+  unfold getFilename
+  rw [expand_norm fr hfr env segs]
+
+/-- a template naming a parameter that does not exist is used unchanged -/
+theorem filename_missing_key (fr : Nat → PyFloat → String) (env : List (String × PyVal)) (txt : String)
+    (segs : List Seg) (h : expand fr env segs = raise .KeyError) : getFilename fr env txt segs = .ok txt := by
+  unfold getFilename; rw [h]; rfl
+
+/-- non-vacuity of `filename_injective_field`: `res_{snr}_{M}` with `snr = 5`
+    and `snr = 15` -/
+example : expand (fun _ _ => "?") [("snr", .int 5), ("M", .int 4)] [.lit "res_", .field "snr", .lit "_", .field "M"]
+      = .ok "res_5_4" ∧
+    expand (fun _ _ => "?") [("snr", .int 15), ("M", .int 4)] [.lit "res_", .field "snr", .lit "_", .field "M"]
+      = .ok "res_15_4" := by constructor <;> rfl
 
 end PyPhysim.C17
